@@ -138,7 +138,8 @@ class C13(Prop):
             "string (delimiter removed/doubled, newline, Unicode digits, ':' without epoch, arch 'rpm', '.rpm' variants); exhaustive: "
             "EVERY string over {a,1,-,.,:,/} up to length 6 (quick) / 8 (thorough). Each case: real parse_nvra vs the Lean model "
             "(correspondence), parts recovered, canonical re-format + parse is a fixed point (Rpms._check_nevra); for raw/exhaustive "
-            "strings the oracle is a regex-free reference decomposition (rsplit) wherever the string has the documented shape. "
+            "strings the oracle is a regex-free reference decomposition (rsplit) wherever the string has the documented shape, and the "
+            "canonical fixed point for EVERY string that parses (arch 'rpm' excepted). "
             "purity probe on a share of both streams (parse_nvra and Rpms._check_nevra): call, mutate every key of the "
             "returned dict and clear it, call again, require the first answer and fresh objects; "
             "non-trivial = distinct case whose real parse succeeded")
@@ -297,6 +298,7 @@ class C13(Prop):
         a = case["args"]
         if case["op"] == "enum":
             items = []
+            fixfail = []
             count = 0
             for w in itertools.product(a["alphabet"], repeat=a["n"]):
                 s = a["prefix"] + "".join(w)
@@ -304,8 +306,14 @@ class C13(Prop):
                 r = guarded(productmd.common.parse_nvra, s)
                 if r != {"err": "ValueError"}:
                     items.append([s, r])
+                    # C13_fixpoint_exact: EVERY parse result re-formats to a string that parses to the same parts (arch 'rpm' excepted)
+                    if "ok" in r and r["ok"].get("arch") != "rpm" and len(fixfail) < 3:
+                        again = guarded(productmd.common.parse_nvra, canon_str(r["ok"]))
+                        if again != r:
+                            fixfail.append({"input": s, "parts": r, "canonical": canon_str(r["ok"]), "reparse": again})
             key = checklib.key_of(case)
             self._enum[("real", key)] = items
+            self._enum[("fixfail", key)] = fixfail
             return {"strings": count, "parsed": len(items), "digest": hashlib.sha1(json.dumps(items, sort_keys=True).encode()).hexdigest()}
         if case["op"] == "int":
             return guarded(int, a["s"])
@@ -389,6 +397,9 @@ class C13(Prop):
         a = case["args"]
         if case["op"] == "enum":
             items = dict((s, v) for s, v in self._enum.get(("real", checklib.key_of(case)), []))
+            for ff in self._enum.get(("fixfail", checklib.key_of(case)), []):
+                return {"observed": ff, "required": "the canonical re-formatting of any parse result parses to the same parts",
+                        "kind": "canonical-form-not-fixed-point", "single": {"op": "parse_raw", "args": {"s": ff["input"]}}}
             for w in itertools.product(a["alphabet"], repeat=a["n"]):
                 s = a["prefix"] + "".join(w)
                 want = spec_split(s)
@@ -415,6 +426,13 @@ class C13(Prop):
         else:
             s, want = a["s"], spec_split(a["s"])
         if want is None:
+            # outside the documented shape only the general fixed point is claimed (C13_fixpoint_exact)
+            pr = real_out["parse"]
+            if "ok" in pr and pr["ok"].get("arch") != "rpm" and (real_out["reparse"] != pr or real_out.get("refmt") != real_out["canon"]):
+                return {"observed": {"input": s, "parts": pr, "canonical": real_out["canon"], "reparse": real_out["reparse"],
+                                     "re-formatted": real_out.get("refmt")},
+                        "required": "the canonical re-formatting of any parse result parses to the same parts",
+                        "kind": "canonical-form-not-fixed-point"}
             return None
         f = self.check_string(s, real_out["parse"], want)
         if f:
@@ -526,7 +544,8 @@ MANIFEST = dict(
          "(no domain hypothesis) parseNvra equals the directly written parser Spec.parseNvraDirect (first line only; directory through "
          "the last '/' after which the rest still parses; name up to the last '-' after which [epoch:]version-release.arch can still be "
          "found; epoch = leading digit run + ':' when the rest still splits; version up to the last '-' with a '.' to its right; release "
-         "up to the last '.'), which also describes what Rpms.add does with names outside the documented shape.",
+         "up to the last '.'), which also describes what Rpms.add does with names outside the documented shape. C13_fixpoint_exact: for "
+         "EVERY string that parses (arch literally 'rpm' excepted) the canonical re-formatting parses to the same parts.",
     note="Epochs of more than 4300 digits raise ValueError (CPython int/str limit): theorem C13_parse_epoch_limit, known finding F19. "
          "Unicode decimal digits in the epoch position are accepted by the code (\\d, int()); modelled and compared, not part of the claim.",
     ref="7/C13")
